@@ -978,7 +978,13 @@ func c24CutsString(s *crashfs.State, cuts crashfs.Cuts) string {
 		case c.Missing:
 			parts = append(parts, f.Name+":missing")
 		case f.InPlace:
-			parts = append(parts, fmt.Sprintf("%s:v%d/%d", f.Name, c.Version, len(f.Versions)-1))
+			vs := ""
+			for _, v := range f.Versions {
+				if mv, err := c24ParseMeta(v); err == nil {
+					vs += fmt.Sprintf("(tail %d,flush %d)", mv.Tail, mv.Offset)
+				}
+			}
+			parts = append(parts, fmt.Sprintf("%s:v%d of %s", f.Name, c.Version, vs))
 		case c.Keep == f.Size() && c.Len == f.Size():
 			continue
 		default:
@@ -1008,7 +1014,7 @@ func c24History(rt *rapid.T) *c24Run {
 	nops := rapid.IntRange(2, 12).Draw(rt, "ops")
 	for i := 0; i < nops; i++ {
 		r.opDats = c24DatCount(r.points[len(r.points)-1].state)
-		switch k := rapid.IntRange(0, 13).Draw(rt, "op"); {
+		switch k := rapid.IntRange(0, 14).Draw(rt, "op"); {
 		case k <= 5:
 			r.opAppend()
 		case k <= 8:
@@ -1017,9 +1023,9 @@ func c24History(rt *rapid.T) *c24Run {
 			}
 		case r.model.head == 0:
 			r.opAppend()
-		case k == 9:
+		case k <= 10:
 			r.opTruncateHead()
-		case k <= 12:
+		case k <= 13:
 			r.opSync()
 		default:
 			r.opReopen()
